@@ -1089,6 +1089,11 @@ impl MetadataClient for ObjectStoreMetadataClient {
         let mut pruned_count = 0;
         let mut seen = std::collections::HashSet::new();
 
+        // An inverted range contains no timestamp (and BTreeMap::range panics on it)
+        if range.start > range.end {
+            return Ok(results);
+        }
+
         for (_bucket, paths) in catalog.time_index.range(start_bucket..=end_bucket) {
             for path in paths {
                 if seen.contains(path) {
